@@ -161,6 +161,17 @@ def one_schedule(ctx, img, meta, progs, seq_trees, policy, line_mode, label, rep
     if fnd:
         ctx.violation(f"{label}: image after the schedule: {fnd[0]}", "concurrent-fsck:" + history.classify_finding(fnd[0]), dict(rep, findings=fnd[:5]))
         return sc
+    # "... and after close() the image satisfies C03": a fresh mount of the closed image shows the tree the live object reported
+    try:
+        rw, _ = history.remount_walk(dev.volume(), 0, "ibm437", True)
+        rt = {p: (x[0],) if x[0] == "d" else (x[0], x[1], core.hashlib.md5(x[2]).hexdigest()) for p, x in rw.items()}
+    except Exception as e:  # noqa
+        ctx.violation(f"{label}: the image after the schedule cannot be mounted again: {type(e).__name__}: {e}", f"concurrent-remount-raises:{type(e).__name__}", rep)
+        return sc
+    if rt != t:
+        d = sorted(set(rt.items()) ^ set(t.items()))[:2]
+        ctx.violation(f"{label}: after the schedule and close() a fresh mount shows a different tree than the live object reported: {str(d)[:160]}", "concurrent-remount-differs", rep)
+        return sc
     if sc.switches:
         ctx.nontrivial.add((label, tuple(sorted(rep.get("preempt", {}).items())) if rep.get("preempt") else tuple(sc.trace[:30])))
     return sc
